@@ -123,6 +123,9 @@ def run(c):
 
     # ---------------- (A) the property on the specifications ----------------
     c.tlc_expect_clean("MCPromiseAbs", "MCPromiseAbs")
+    # unbounded: the inductive invariant of PromiseAbs and the safety part of the property, for any number of callbacks and
+    # completers, by the TLA+ proof system
+    c.tlapm("PromiseAbsProof")
     regs, comps = (["r1", "r2", "r3"], ["k1", "k2"]) if c.thorough else (["r1", "r2"], ["k1", "k2"])
     n0s = [0, 1, 2, 3, 4] if c.thorough else [0, 3]
     for n0 in n0s:
